@@ -94,4 +94,41 @@ PROPS = {
             "the theorem is about the struct table (derives, fields, zeroize(skip)) of the current source as extracted by the translator, and about the semantics of the zeroize derive as modelled in Model/Zeroize.v; drop-time memory effects are not observable in a Gallina model",
         ],
     },
+    "C14": {
+        "families": [
+            {"name": "c14", "config": "default", "kc": "K_src"},
+            {"name": "c14", "config": "cfg-l2-h5-w4", "kc": "with_cfg K_src 2 [5; 5] [4; 4]",
+             "env": {"HBS_LMS_MAX_ALLOWED_HSS_LEVELS": "2", "HBS_LMS_TREE_HEIGHTS": "5, 5", "HBS_LMS_WINTERNITZ_PARAMETERS": "4, 4"}},
+            {"name": "c14", "config": "cfg-l1-h5-w2", "kc": "with_cfg K_src 1 [5] [2]",
+             "env": {"HBS_LMS_MAX_ALLOWED_HSS_LEVELS": "1", "HBS_LMS_TREE_HEIGHTS": "5", "HBS_LMS_WINTERNITZ_PARAMETERS": "2"}},
+        ],
+        "thorough_families": [
+            {"name": "c14", "config": "cfg-l3-h10-5-5-w1-2-4", "kc": "with_cfg K_src 3 [10; 5; 5] [1; 2; 4]",
+             "env": {"HBS_LMS_MAX_ALLOWED_HSS_LEVELS": "3", "HBS_LMS_TREE_HEIGHTS": "10, 5, 5", "HBS_LMS_WINTERNITZ_PARAMETERS": "1, 2, 4"}},
+            {"name": "c14", "config": "cfg-l4-h5-w8", "kc": "with_cfg K_src 4 [5; 5; 5; 5] [8; 8; 8; 8]",
+             "env": {"HBS_LMS_MAX_ALLOWED_HSS_LEVELS": "4", "HBS_LMS_TREE_HEIGHTS": "5, 5, 5, 5", "HBS_LMS_WINTERNITZ_PARAMETERS": "8, 8, 8, 8"}},
+        ],
+        "assumptions": [
+            "the model is parametric in the limits (with_cfg); each build's outputs are compared with the model under that build's limits, and the outputs of different builds for the same input are compared with each other",
+            "interior fixed-capacity containers are not modelled; that they suffice within the validated limits is exercised by these builds",
+        ],
+    },
+    "C15": {
+        "families": [
+            {"name": "c15", "config": "fv-t1-o200", "features": "fast_verify,verbose",
+             "env": {"HBS_LMS_THREADS": "1", "HBS_LMS_MAX_HASH_OPTIMIZATIONS": "200"}},
+            {"name": "c15", "config": "fv-t4-o64", "features": "fast_verify,verbose",
+             "env": {"HBS_LMS_THREADS": "4", "HBS_LMS_MAX_HASH_OPTIMIZATIONS": "64"}},
+        ],
+        "thorough_families": [
+            {"name": "c15", "config": "fv-t16-o1", "features": "fast_verify,verbose",
+             "env": {"HBS_LMS_THREADS": "16", "HBS_LMS_MAX_HASH_OPTIMIZATIONS": "16"}},
+            {"name": "c15", "config": "fv-t2-o10000", "features": "fast_verify,verbose",
+             "env": {"HBS_LMS_THREADS": "2", "HBS_LMS_MAX_HASH_OPTIMIZATIONS": "10000"}},
+        ],
+        "assumptions": [
+            "the randomizer search (threads, OsRng) is represented by the trailer r it produces; theorems are for every r; the model is given the r observed in the implementation's output and must reproduce signature, callback record and reported hash iterations",
+            "scheduling itself is runtime behaviour: sampled under several thread counts",
+        ],
+    },
 }
